@@ -708,7 +708,7 @@ Proof.
   - destruct (of_readonly fl); [|apply h_fail].
     eapply h_conseq; [apply (h_ret r TT)|auto|]. cbn beta; intros a s [-> _]. split; [exact Hr|intros; discriminate].
   - eapply h_seq.
-    + destruct fl; cbn [of_trunc]; try hret. apply h_mutate_real; [exact Hr|apply Hu; reflexivity].
+    + destruct (of_trunc fl) eqn:Et; [|hret]. apply h_mutate_real; [exact Hr|apply Hu; apply of_trunc_not_readonly; exact Et].
     + intros _. eapply h_conseq; [apply (h_ret r TT)|auto|]. cbn beta; intros a s [-> _]. split; assumption.
   - apply h_fail.
   - apply h_fail.
@@ -803,7 +803,7 @@ Proof.
   - (* open *) eapply h_seq; [apply h_walk|]; intros _.
     eapply h_bind_pure; [apply h_do_open|]. intros r [Hr Hu].
     eapply h_conseq; [apply (h_ret _ TT)|auto|]. cbn beta. intros _ _ _.
-    destruct fl; cbn [of_readonly negb]; try exact I; (destruct (Hr (Hu eq_refl)) as [_ H]; exact H).
+    destruct (of_readonly fl) eqn:Ero; cbn [negb]; [exact I|]. destruct (Hr (Hu eq_refl)) as [_ H]; exact H.
   - (* write *) eapply h_seq; [apply h_walk|]; intros _.
     eapply h_bind_pure; [apply h_do_open|]. intros r [Hr Hu]. specialize (Hu eq_refl). destruct (Hr Hu) as [_ Hhu].
     eapply h_seq; [apply h_mutate_real; assumption|]. intros _.
